@@ -96,7 +96,7 @@ func runCheck(prop, tier string) int {
 	}
 	e := mustEngine()
 	pr := &propRun{prop: prop, tier: tier, assumed: map[string]bool{}, trusted: map[string]bool{}, warnings: map[string]bool{}, byBackend: map[string]int{}}
-	timeout := 10
+	timeout := 15
 	if tier == "thorough" {
 		timeout = 60
 	}
